@@ -12,10 +12,12 @@ def jobs(tier):
     return [
         # always complete: 15 PVQ table rows, 5 pulse-cache rows, all ICDF tables, 168 Laplace pairs, one stratified unit per (N,K)
         Job("c17_codes", "flt-asan", "enumerate", workers=W, csources=CS, link_extra=WRAP, maxtime=200),
+        # the same complete families on the fixed-point build (static_modes_fixed.h carries its own copy of the pulse cache)
+        Job("c17_codes", "fix-asan", "enumerate", workers=W, csources=CS, link_extra=WRAP, maxtime=200),
         # every index of every (N,K) with V <= 2^24 (2^22 stratified otherwise), 32768 indices per unit; quick takes every 32nd unit
         Job("c17_codes_full", "flt-asan", "enumerate", workers=W, sources=["targets/c17_codes.cpp"], extra_defs=("-DC17_FULL_ENUM=1",),
             csources=CS, link_extra=WRAP, enum_stride=32 if q else 1, maxtime=60 if q else 500),
-        Job("c17_codes", "flt-asan", "random", workers=W, cases=6000 if q else 30000, csources=CS, link_extra=WRAP, maxtime=40 if q else 400),
+        Job("c17_codes", "flt-asan", "random", workers=W, cases=10000 if q else 30000, csources=CS, link_extra=WRAP, maxtime=35 if q else 400),
     ]
 
 
